@@ -217,6 +217,12 @@ def history_layer(ctx, nhist, maxlen):
         ('SELECT s, count(i) FROM #t GROUP BY s ORDER BY 2 DESC, 1', lambda r: None),
         ('SELECT DISTINCT b, c FROM #t', lambda r: None),
         ('SELECT %s, %s, %s FROM #t LIMIT 2', lambda r: (r.choice([True, None]), datetime.date(2020, 1, r.range(1, 9)), 'x')),
+        # values that compare equal in Python but are different literals
+        ('SELECT str(%s) AS v, %s AS w FROM #t LIMIT 1', lambda r: (r.choice([1, True, Decimal('1'), Decimal('1.0'), Decimal('1.00'), 0, False]),
+                                                                   r.choice([0, False, Decimal('0'), Decimal('0.0')]))),
+        ('SELECT str(%(v)s) AS v FROM #t LIMIT 1', lambda r: {'v': r.choice([1, True, Decimal('1.0'), Decimal('1.00')])}),
+        # ONE parameters object, updated in place between the executions
+        ('SELECT i + %(k)s AS v FROM #t WHERE i > %(k)s', lambda r, shared={}: (shared.update(k=r.range(0, 4)) or shared)),
     ]
     for h in range(nhist):
         if ctx.stop():
@@ -231,7 +237,7 @@ def history_layer(ctx, nhist, maxlen):
             k = rng.below(len(texts))
             text, mk = texts[k]
             params = mk(rng)
-            mode = rng.choice(['text', 'parsed', 'parsed', 'many'])
+            mode = rng.choice(['text', 'parsed', 'parsed', 'many', 'cursor', 'cursor'])
             if mode == 'parsed':
                 if k not in parsed:
                     parsed[k] = conn.parse(text)
@@ -241,6 +247,10 @@ def history_layer(ctx, nhist, maxlen):
             try:
                 if mode == 'many' and params is not None:
                     cur.executemany(text, [params, mk(rng), params])
+                    got = proto.show_result(cur.description, cur.fetchall(), proto.Opaque())
+                elif mode == 'cursor':
+                    # the same cursor again and again
+                    cur.execute(stmt, params)
                     got = proto.show_result(cur.description, cur.fetchall(), proto.Opaque())
                 else:
                     c2 = conn.execute(stmt, params)
@@ -260,6 +270,40 @@ def history_layer(ctx, nhist, maxlen):
         ctx.count('histories')
         if len(ctx.samples) < 6 and h % 10 == 0:
             ctx.samples.append({'case': 'history', 'steps': repr(steps)[:400]})
+
+
+def cursor_layer(ctx):
+    """one cursor, consecutive executions that differ only in what Python's == does not see: parameter values of different
+    literal types that compare equal, a parameters object updated in place, parsed statements whose trees compare equal"""
+    rng = ctx.rng
+    table = std_table(rng, nrows=4, small=True)
+    conn = impl.connection([table])
+    cur = conn.cursor()
+    shared = {'k': 0}
+    steps = []
+    for text, params in [('SELECT str(%s) AS v FROM #t LIMIT 1', (1,)), ('SELECT str(%s) AS v FROM #t LIMIT 1', (True,)),
+                         ('SELECT str(%s) AS v FROM #t LIMIT 1', (Decimal('1.0'),)), ('SELECT str(%s) AS v FROM #t LIMIT 1', (Decimal('1.00'),)),
+                         ('SELECT str(%(v)s) AS v FROM #t LIMIT 1', {'v': 0}), ('SELECT str(%(v)s) AS v FROM #t LIMIT 1', {'v': False}),
+                         ('SELECT i + %(k)s AS v FROM #t WHERE i > %(k)s', shared), ('SELECT i + %(k)s AS v FROM #t WHERE i > %(k)s', 'update'),
+                         ('SELECT i + %(k)s AS v FROM #t WHERE i > %(k)s', 'update'),
+                         (conn.parse('SELECT str(0) AS v FROM #t LIMIT 1'), None), (conn.parse('SELECT str(FALSE) AS v FROM #t LIMIT 1'), None),
+                         (conn.parse('SELECT str(1.0) AS v FROM #t LIMIT 1'), None), (conn.parse('SELECT str(1.00) AS v FROM #t LIMIT 1'), None)]:
+        if params == 'update':
+            shared['k'] += 2
+            params = shared
+        try:
+            cur.execute(text, params)
+            got = proto.show_result(cur.description, cur.fetchall(), proto.Opaque())
+        except Exception as exc:  # noqa: BLE001
+            got = impl.classify_exc(exc)
+        fresh = impl.run_select(impl.connection([table]), text, copy.deepcopy(params))
+        steps.append((repr(text)[:80], repr(params)))
+        ctx.evaluations += 1
+        ctx.count('same-cursor')
+        if got != fresh:
+            ctx.record_violation('history-dependent-result', 'same cursor, step %d %r %r: %s, fresh: %s' % (
+                len(steps), text if isinstance(text, str) else 'parsed', params, got[:200], fresh[:200]), meta={'steps': repr(steps)})
+            return
 
 
 NULL_TEXTS = [
@@ -321,7 +365,10 @@ LEDGER_QUERIES = [
     "SELECT account, sum(position), last(balance) GROUP BY account",
     "SELECT date, narration, tags, links FROM #transactions ORDER BY date DESC",
     "SELECT account, balance WHERE number > 0",
-    "SELECT account, meta FROM #accounts",
+    "SELECT account, open, close FROM #accounts",
+    "SELECT * FROM #accounts", "SELECT * FROM #entries", "SELECT * FROM #transactions", "SELECT * FROM #balances",
+    "SELECT * FROM #notes", "SELECT * FROM #events", "SELECT * FROM #documents", "SELECT * FROM #commodities",
+    "SELECT account, open_date(account), close_date(account) FROM #postings WHERE account IN (SELECT account FROM #accounts)",
     "BALANCES AT cost FROM year >= 2019",
     "JOURNAL 'Assets' AT units",
     "SELECT * FROM #prices",
@@ -332,7 +379,6 @@ LEDGER_QUERIES = [
     "SELECT account, sum(position) FROM CLEAR GROUP BY account ORDER BY account",
     "SELECT date, flag, account, position FROM year >= 2020 OPEN ON 2020-02-01",
     "BALANCES FROM CLOSE ON 2020-06-01 CLEAR",
-    "PRINT FROM OPEN ON 2020-01-01 CLOSE ON 2020-04-01",
     "SELECT name, meta('name'), meta('rank') FROM #commodities",
 ]
 
@@ -372,7 +418,8 @@ def ledger_history_layer(ctx, nledgers):
                 cur = c2.execute(q)
                 fresh[q] = proto.show_result(cur.description, cur.fetchall(), proto.Content())
             except Exception as exc:  # noqa: BLE001
-                fresh[q] = impl.classify_exc(exc)
+                # a statement of this list that the unchanged tree rejects would compare two error strings: a harness bug
+                raise RuntimeError('ledger history statement is not accepted: %s (%r)' % (q, exc))
         order = rng.shuffle(list(LEDGER_QUERIES) * 2)
         for q in order:
             try:
@@ -398,6 +445,7 @@ def ledger_history_layer(ctx, nledgers):
 
 def run(ctx):
     order_layer(ctx)
+    cursor_layer(ctx)
     ledger_history_layer(ctx, 8 if ctx.thorough() else 2)
     binding_layer(ctx, 1500 if ctx.thorough() else 250)
     folding_layer(ctx, 1500 if ctx.thorough() else 250)
